@@ -47,11 +47,13 @@ VARIABLES
     used,        \* [Peers -> server nonces already consumed by a Connect]
     sAccepted, cAccepted,   \* [Peers -> nonce pair each side connected with]
     errFwd,      \* [Peers -> set of <<nonce_ack, err>> of ERROR frames forwarded to the client]
+    saFwd,       \* [Peers -> set of <<nonce, nonce_ack>> of SYN-ACK frames forwarded to the client]
     sentOn,      \* [Keys -> the application submitted at least one packet on this connection from that side]
     relWait,     \* [Keys -> Reliable uids accepted by that side and not yet received by the other]
     mustDeliver, \* [Keys -> Reliable uids that were waiting when that side called disconnect()]
     discAt,      \* [Keys -> time of the first DISCONNECT that side put on the wire, -1]
     discCount,   \* [Keys -> DISCONNECT frames that side put on the wire]
+    lng,         \* [Keys -> [at, fwd, ack]]: Disconnect reported on receiving a DISCONNECT at `at` (-1: none); DISCONNECTs forwarded to it within the linger since; DISCONNECT-ACKs it sent since
     nData,       \* [Keys -> data frames that side has put on the wire since its Connect]
     bytesIn, bytesOut, verified,   \* [Peers -> ...]  C18
     trackedPrev, trackedBefore, synThisStep, synLastStep,      \* server bookkeeping for C17 (values at the latest / previous server StepEnd)
@@ -60,7 +62,7 @@ VARIABLES
     bad
 
 vars == <<l, st, closing, T, ka, lastHeard, inbox, lastStep, maxGap, connectT, cNonce, synSeen, synCount, curSynack, ackFwd, srvIssued, cliAcked, used,
-          sAccepted, cAccepted, errFwd, sentOn, relWait, mustDeliver, discAt, discCount, nData, bytesIn, bytesOut, verified, trackedPrev, trackedBefore, synThisStep, synLastStep, cfg, seenWhy, bad>>
+          sAccepted, cAccepted, errFwd, saFwd, sentOn, relWait, mustDeliver, discAt, discCount, lng, nData, bytesIn, bytesOut, verified, trackedPrev, trackedBefore, synThisStep, synLastStep, cfg, seenWhy, bad>>
 
 EpNames == Peers \cup {"s"}
 K(side, p) == <<side, p>>
@@ -74,8 +76,8 @@ InitVals ==
     /\ lastStep = [e \in EpNames |-> -1] /\ maxGap = [e \in EpNames |-> 0]
     /\ connectT = [p \in Peers |-> -1] /\ cNonce = [p \in Peers |-> NoNonce] /\ synSeen = [p \in Peers |-> {}] /\ synCount = [p \in Peers |-> 0]
     /\ curSynack = [p \in Peers |-> [nonce |-> NoNonce, nonce_ack |-> NoNonce]] /\ ackFwd = [p \in Peers |-> {}] /\ srvIssued = [p \in Peers |-> {}] /\ cliAcked = [p \in Peers |-> {}] /\ used = [p \in Peers |-> {}]
-    /\ sAccepted = [p \in Peers |-> NoNonce] /\ cAccepted = [p \in Peers |-> NoNonce] /\ errFwd = [p \in Peers |-> {}]
-    /\ sentOn = [k \in Keys |-> FALSE] /\ relWait = [k \in Keys |-> {}] /\ mustDeliver = [k \in Keys |-> {}] /\ discAt = [k \in Keys |-> -1] /\ discCount = [k \in Keys |-> 0] /\ nData = [k \in Keys |-> 0]
+    /\ sAccepted = [p \in Peers |-> NoNonce] /\ cAccepted = [p \in Peers |-> NoNonce] /\ errFwd = [p \in Peers |-> {}] /\ saFwd = [p \in Peers |-> {}]
+    /\ sentOn = [k \in Keys |-> FALSE] /\ relWait = [k \in Keys |-> {}] /\ mustDeliver = [k \in Keys |-> {}] /\ discAt = [k \in Keys |-> -1] /\ discCount = [k \in Keys |-> 0] /\ lng = [k \in Keys |-> [at |-> -1, fwd |-> 0, ack |-> 0]] /\ nData = [k \in Keys |-> 0]
     /\ bytesIn = [p \in Peers |-> 0] /\ bytesOut = [p \in Peers |-> 0] /\ verified = [p \in Peers |-> FALSE]
     /\ trackedPrev = 0 /\ trackedBefore = 0 /\ synThisStep = {} /\ synLastStep = {}
 
@@ -92,8 +94,8 @@ Reset ==
     /\ lastStep' = [e \in EpNames |-> -1] /\ maxGap' = [e \in EpNames |-> 0]
     /\ connectT' = [p \in Peers |-> -1] /\ cNonce' = [p \in Peers |-> NoNonce] /\ synSeen' = [p \in Peers |-> {}] /\ synCount' = [p \in Peers |-> 0]
     /\ curSynack' = [p \in Peers |-> [nonce |-> NoNonce, nonce_ack |-> NoNonce]] /\ ackFwd' = [p \in Peers |-> {}] /\ srvIssued' = [p \in Peers |-> {}] /\ cliAcked' = [p \in Peers |-> {}] /\ used' = [p \in Peers |-> {}]
-    /\ sAccepted' = [p \in Peers |-> NoNonce] /\ cAccepted' = [p \in Peers |-> NoNonce] /\ errFwd' = [p \in Peers |-> {}]
-    /\ sentOn' = [k \in Keys |-> FALSE] /\ relWait' = [k \in Keys |-> {}] /\ mustDeliver' = [k \in Keys |-> {}] /\ discAt' = [k \in Keys |-> -1] /\ discCount' = [k \in Keys |-> 0] /\ nData' = [k \in Keys |-> 0]
+    /\ sAccepted' = [p \in Peers |-> NoNonce] /\ cAccepted' = [p \in Peers |-> NoNonce] /\ errFwd' = [p \in Peers |-> {}] /\ saFwd' = [p \in Peers |-> {}]
+    /\ sentOn' = [k \in Keys |-> FALSE] /\ relWait' = [k \in Keys |-> {}] /\ mustDeliver' = [k \in Keys |-> {}] /\ discAt' = [k \in Keys |-> -1] /\ discCount' = [k \in Keys |-> 0] /\ lng' = [k \in Keys |-> [at |-> -1, fwd |-> 0, ack |-> 0]] /\ nData' = [k \in Keys |-> 0]
     /\ bytesIn' = [p \in Peers |-> 0] /\ bytesOut' = [p \in Peers |-> 0] /\ verified' = [p \in Peers |-> FALSE]
     /\ trackedPrev' = 0 /\ trackedBefore' = 0 /\ synThisStep' = {} /\ synLastStep' = {}
     /\ cfg' = [max_active |-> Cur.max_active, max_total |-> Cur.max_total, lossfree |-> Cur.lossfree, steady |-> Cur.steady, crate |-> [p \in Peers |-> 0], server |-> Cur.server]
@@ -104,13 +106,21 @@ UNCH(S) == UNCHANGED S
 \* ------------------------------------------------------------------------------- application calls
 AppConnect ==
     /\ IsEvent("Connect")
-    /\ LET p == Cur.ep IN
+    \* Client::connect creates a new client object for this address (the first, or a reconnection after the previous one has
+    \* ended): everything the monitor knows about the client side of that address starts afresh
+    /\ LET p == Cur.ep  k == K("C", p) IN
        /\ connectT' = [connectT EXCEPT ![p] = Cur.t]
-       /\ T' = [T EXCEPT ![K("C", p)] = Cur.timeout]
-       /\ ka' = [ka EXCEPT ![K("C", p)] = Cur.keepalive]
+       /\ T' = [T EXCEPT ![k] = Cur.timeout]
+       /\ ka' = [ka EXCEPT ![k] = Cur.keepalive]
        /\ cfg' = [cfg EXCEPT !.crate[p] = Cur.max_send_rate]
-    /\ UNCHANGED <<st, closing, lastHeard, inbox, lastStep, maxGap, cNonce, synSeen, synCount, curSynack, ackFwd, srvIssued, cliAcked, used, sAccepted, cAccepted, errFwd,
-                   sentOn, relWait, mustDeliver, discAt, discCount, nData, bytesIn, bytesOut, verified, trackedPrev, trackedBefore, synThisStep, synLastStep, bad>>
+       /\ st' = [st EXCEPT ![k] = "idle"] /\ closing' = [closing EXCEPT ![k] = ""] /\ inbox' = [inbox EXCEPT ![k] = <<>>]
+       /\ cNonce' = [cNonce EXCEPT ![p] = NoNonce] /\ synCount' = [synCount EXCEPT ![p] = 0] /\ cAccepted' = [cAccepted EXCEPT ![p] = NoNonce]
+       /\ saFwd' = [saFwd EXCEPT ![p] = {}] /\ errFwd' = [errFwd EXCEPT ![p] = {}]
+       /\ sentOn' = [sentOn EXCEPT ![k] = FALSE] /\ relWait' = [relWait EXCEPT ![k] = {}] /\ mustDeliver' = [mustDeliver EXCEPT ![k] = {}]
+       /\ discAt' = [discAt EXCEPT ![k] = -1] /\ discCount' = [discCount EXCEPT ![k] = 0] /\ lng' = [lng EXCEPT ![k] = [at |-> -1, fwd |-> 0, ack |-> 0]]
+       /\ nData' = [nData EXCEPT ![k] = 0]
+    /\ UNCHANGED <<lastHeard, lastStep, maxGap, synSeen, curSynack, ackFwd, srvIssued, cliAcked, used, sAccepted,
+                   bytesIn, bytesOut, verified, trackedPrev, trackedBefore, synThisStep, synLastStep, bad>>
 
 App ==
     /\ IsEvent("App")
@@ -136,7 +146,9 @@ App ==
                 /\ mustDeliver' = [mustDeliver EXCEPT ![k] = {}]
                 /\ UNCHANGED sentOn
          [] OTHER -> UNCHANGED <<st, closing, relWait, mustDeliver, sentOn>>
-    /\ UNCHANGED <<T, ka, lastHeard, inbox, lastStep, maxGap, connectT, cNonce, synSeen, synCount, curSynack, ackFwd, srvIssued, cliAcked, used, sAccepted, cAccepted, errFwd,
+    \* Server::drop forgets the connection at once: a dropped endpoint owes no answers
+    /\ lng' = IF Cur.call = "drop" THEN [lng EXCEPT ![K(IF Cur.ep = "s" THEN "S" ELSE "C", IF Cur.ep = "s" THEN Cur.peer ELSE Cur.ep)] = [at |-> -1, fwd |-> 0, ack |-> 0]] ELSE lng
+    /\ UNCHANGED <<T, ka, lastHeard, inbox, lastStep, maxGap, connectT, cNonce, synSeen, synCount, curSynack, ackFwd, srvIssued, cliAcked, used, sAccepted, cAccepted, errFwd, saFwd,
                    discAt, discCount, nData, bytesIn, bytesOut, verified, trackedPrev, trackedBefore, synThisStep, synLastStep, cfg, bad>>
 
 \* ------------------------------------------------------------------------------------------ network
@@ -161,6 +173,11 @@ Wire ==
                               /\ trackedBefore + Cardinality(synLastStep \cup synThisStep) < cfg.max_total
                               /\ trackedBefore + Cardinality(synLastStep \cup synThisStep) < cfg.max_active
                            THEN Flag("C17", "refused-with-serverfull-while-capacity-available") ELSE {})
+                     \* a client confirms - by an ACK carrying the server's nonce - only a SYN-ACK that reached it and echoes the
+                     \* nonce of its own SYN: anything else lets a forged or stale handshake create a connection at the server
+                     \cup (IF ~fromS /\ Cur.type = "ACK" /\ p \in {"c0", "c1", "c2", "c3"} /\ cNonce[p] # NoNonce
+                              /\ <<Nonce(Cur, "nonce_ack", "nonce_ack_lsb"), cNonce[p]>> \notin saFwd[p]
+                           THEN Flag("C07", "client-confirmed-a-synack-that-does-not-echo-its-nonce") ELSE {})
                      \* both ends established by the same handshake: frame ids count from the negotiated nonces.
                      \* seq_rel is the frame id of a data frame minus the sender's own nonce, or the frame window base of
                      \* an ack frame minus the peer's nonce (computed by the harness modulo 2^32; -1 = far away, -2 = unknown)
@@ -179,7 +196,8 @@ Wire ==
        /\ cliAcked' = IF ~fromS /\ Cur.type = "ACK" THEN [cliAcked EXCEPT ![p] = @ \cup {Nonce(Cur, "nonce_ack", "nonce_ack_lsb")}] ELSE cliAcked
        /\ discAt' = IF Cur.type = "DISC" /\ discAt[k] < 0 /\ st[k] = "conn" THEN [discAt EXCEPT ![k] = Cur.t] ELSE discAt
        /\ discCount' = IF Cur.type = "DISC" /\ st[k] = "conn" THEN [discCount EXCEPT ![k] = @ + 1] ELSE discCount
-    /\ UNCHANGED <<st, closing, T, ka, lastHeard, inbox, lastStep, maxGap, connectT, synSeen, ackFwd, used, sAccepted, cAccepted, errFwd,
+       /\ lng' = IF Cur.type = "DISCACK" /\ lng[k].at >= 0 THEN [lng EXCEPT ![k].ack = @ + 1] ELSE lng
+    /\ UNCHANGED <<st, closing, T, ka, lastHeard, inbox, lastStep, maxGap, connectT, synSeen, ackFwd, used, sAccepted, cAccepted, errFwd, saFwd,
                    sentOn, relWait, mustDeliver, bytesIn, verified, trackedPrev, trackedBefore, synThisStep, synLastStep, cfg>>
 
 (* A datagram handed to an endpoint's socket (genuine after its fate, duplicated, or forged). *)
@@ -196,6 +214,8 @@ Fwd ==
                      ELSE synSeen
        /\ synThisStep' = IF toS /\ Cur.type = "SYN" THEN synThisStep \cup {p} ELSE synThisStep
        /\ ackFwd' = IF toS /\ Cur.type = "ACK" THEN [ackFwd EXCEPT ![p] = @ \cup {Nonce(Cur, "nonce_ack", "nonce_ack_lsb")}] ELSE ackFwd
+       /\ saFwd' = IF ~toS /\ Cur.type = "SYNACK" THEN [saFwd EXCEPT ![p] = @ \cup {<<Nonce(Cur, "nonce", "nonce_lsb"), Nonce(Cur, "nonce_ack", "nonce_ack_lsb")>>}] ELSE saFwd
+       /\ lng' = IF Cur.type = "DISC" /\ lng[k].at >= 0 /\ Cur.t <= lng[k].at + 18000 THEN [lng EXCEPT ![k].fwd = @ + 1] ELSE lng
        /\ errFwd' = IF ~toS /\ Cur.type = "ERR" THEN [errFwd EXCEPT ![p] = @ \cup {<<Nonce(Cur, "nonce_ack", "nonce_ack_lsb"), Cur.err>>}] ELSE errFwd
     /\ UNCHANGED <<st, closing, T, ka, lastHeard, lastStep, maxGap, connectT, cNonce, synCount, curSynack, srvIssued, cliAcked, used, sAccepted, cAccepted,
                    sentOn, relWait, mustDeliver, discAt, discCount, nData, bytesOut, verified, trackedPrev, trackedBefore, synLastStep, cfg, bad>>
@@ -222,8 +242,8 @@ Limits ==
        IN bad' = bad
             \cup (IF side = "S" /\ syn # {} /\ ~okS THEN Flag("C07", "negotiated-limits-differ-from-what-the-peer-advertised") ELSE {})
             \cup (IF side = "C" /\ I # {} /\ ~okC THEN Flag("C07", "negotiated-limits-differ-from-what-the-peer-advertised") ELSE {})
-    /\ UNCHANGED <<st, closing, T, ka, lastHeard, inbox, lastStep, maxGap, connectT, cNonce, synSeen, synCount, curSynack, ackFwd, srvIssued, cliAcked, used, sAccepted, cAccepted, errFwd,
-                   sentOn, relWait, mustDeliver, discAt, discCount, nData, bytesIn, bytesOut, verified, trackedPrev, trackedBefore, synThisStep, synLastStep, cfg>>
+    /\ UNCHANGED <<st, closing, T, ka, lastHeard, inbox, lastStep, maxGap, connectT, cNonce, synSeen, synCount, curSynack, ackFwd, srvIssued, cliAcked, used, sAccepted, cAccepted, errFwd, saFwd,
+                   sentOn, relWait, mustDeliver, discAt, discCount, lng, nData, bytesIn, bytesOut, verified, trackedPrev, trackedBefore, synThisStep, synLastStep, cfg>>
 
 \* ------------------------------------------------------------------------------------------- events
 FirstSynackFor(q, mine) ==   \* nonce of the first SYN-ACK in the inbox that echoes `mine`
@@ -275,6 +295,7 @@ Event ==
               /\ mustDeliver' = [mustDeliver EXCEPT ![k] = {}]
               /\ discAt' = [discAt EXCEPT ![k] = -1]
               /\ discCount' = [discCount EXCEPT ![k] = 0]
+              /\ lng' = [lng EXCEPT ![k] = [at |-> -1, fwd |-> 0, ack |-> 0]]
               /\ nData' = [nData EXCEPT ![k] = 0]
          [] Cur.kind = "Receive" ->
               /\ bad' = bad
@@ -284,7 +305,7 @@ Event ==
                    \cup (IF Cur.uid < 0 \/ ~Cur.match THEN Flag("C08", "received-payload-never-sent") ELSE {})
               /\ relWait' = [relWait EXCEPT ![o] = @ \ {Cur.uid}]
               /\ UNCHANGED sentOn
-              /\ UNCHANGED <<st, used, sAccepted, cAccepted, verified, lastHeard, closing, mustDeliver, discAt, discCount, nData>>
+              /\ UNCHANGED <<st, used, sAccepted, cAccepted, verified, lastHeard, closing, mustDeliver, discAt, discCount, lng, nData>>
          [] Cur.kind = "Disconnect" ->
               /\ bad' = bad
                    \cup (IF st[k] = "idle" THEN Flag("C08", "disconnect-without-connect") ELSE {})
@@ -295,6 +316,10 @@ Event ==
                    \cup (IF st[k] = "conn" /\ closing[o] = "flush" /\ discAt[o] >= 0 /\ closing[k] = "" /\ mustDeliver[o] \cap relWait[o] # {}
                          THEN Flag("C09", "peer-saw-disconnect-before-earlier-reliable-packets") ELSE {})
               /\ st' = [st EXCEPT ![k] = IF side = "C" THEN "done" ELSE "idle"]
+              \* reported on receiving the peer's DISCONNECT (not its DISCONNECT-ACK): this side now lingers in Closed for 20 s and
+              \* answers every retransmission of that DISCONNECT
+              /\ lng' = IF (\E i \in 1..Len(inbox[k]) : inbox[k][i].type = "DISC") /\ ~(\E i \in 1..Len(inbox[k]) : inbox[k][i].type = "DISCACK")
+                        THEN [lng EXCEPT ![k] = [at |-> t, fwd |-> 0, ack |-> 0]] ELSE lng
               /\ UNCHANGED <<used, sAccepted, cAccepted, verified, lastHeard, closing, relWait, sentOn, mustDeliver, discAt, discCount, nData>>
          [] Cur.kind = "Error" ->
               LET established == st[k] = "conn"
@@ -316,6 +341,11 @@ Event ==
                    \* closing: only after the disconnect retry budget
                    \cup (IF established /\ isTimeout /\ discAt[k] >= 0 /\ (t < discAt[k] + 22000 \/ discCount[k] < 11)
                          THEN Flag("C10", "disconnect-timeout-before-retry-budget") ELSE {})
+                   \* "Error(Timeout) if the peer has become unreachable": the peer reported Disconnect on receiving this side's
+                   \* DISCONNECT and then lingers for 20 s answering retransmissions; if three or more of them reached it within
+                   \* that time and it answered at most once, it was reachable and silent
+                   \cup (IF established /\ isTimeout /\ discAt[k] >= 0 /\ lng[o].at >= 0 /\ lng[o].fwd >= 3 /\ lng[o].ack <= 1
+                         THEN Flag("C09", "closed-endpoint-stopped-acknowledging-disconnect-retransmissions") ELSE {})
                    \* client handshake: only after the retry budget
                    \cup (IF side = "C" /\ st[k] = "idle" /\ isTimeout /\ (t < connectT[p] + 22000 \/ synCount[p] < 11)
                          THEN Flag("C10", "handshake-timeout-before-retry-budget") ELSE {})
@@ -323,9 +353,9 @@ Event ==
                          THEN Flag("C07", "handshake-error-without-matching-refusal-frame") ELSE {})
                    \cup (IF established /\ ~isTimeout THEN Flag("C08", "handshake-error-on-established-connection") ELSE {})
               /\ st' = [st EXCEPT ![k] = IF side = "C" THEN "done" ELSE "idle"]
-              /\ UNCHANGED <<used, sAccepted, cAccepted, verified, lastHeard, closing, relWait, sentOn, mustDeliver, discAt, discCount, nData>>
-         [] OTHER -> UNCHANGED <<bad, st, used, sAccepted, cAccepted, verified, lastHeard, closing, relWait, sentOn, mustDeliver, discAt, discCount, nData>>
-    /\ UNCHANGED <<T, ka, inbox, lastStep, maxGap, connectT, cNonce, synSeen, synCount, curSynack, ackFwd, srvIssued, cliAcked, errFwd, bytesIn, bytesOut, trackedPrev, trackedBefore, synThisStep, synLastStep, cfg>>
+              /\ UNCHANGED <<used, sAccepted, cAccepted, verified, lastHeard, closing, relWait, sentOn, mustDeliver, discAt, discCount, lng, nData>>
+         [] OTHER -> UNCHANGED <<bad, st, used, sAccepted, cAccepted, verified, lastHeard, closing, relWait, sentOn, mustDeliver, discAt, discCount, lng, nData>>
+    /\ UNCHANGED <<T, ka, inbox, lastStep, maxGap, connectT, cNonce, synSeen, synCount, curSynack, ackFwd, srvIssued, cliAcked, errFwd, saFwd, bytesIn, bytesOut, trackedPrev, trackedBefore, synThisStep, synLastStep, cfg>>
 
 \* --------------------------------------------------------------------------------------- end of step
 
@@ -355,13 +385,17 @@ StepEnd ==
             \cup (IF e = "s" /\ Cur.nactive > cfg.max_active THEN Flag("C17", "more-active-connections-than-max-active") ELSE {})
             \cup (IF e = "s" /\ Cardinality({p \in Peers : st[K("S", p)] = "conn" /\ discAt[K("S", p)] < 0}) > cfg.max_active THEN Flag("C17", "more-established-connections-than-max-active") ELSE {})
             \cup (IF e = "s" /\ Cur.ntracked > cfg.max_total THEN Flag("C17", "more-tracked-connections-than-max-total") ELSE {})
-    /\ UNCHANGED <<st, closing, T, ka, connectT, cNonce, synSeen, synCount, curSynack, ackFwd, srvIssued, cliAcked, used, sAccepted, cAccepted, errFwd,
-                   sentOn, relWait, mustDeliver, discAt, discCount, nData, bytesIn, bytesOut, verified, cfg>>
+            \* "capacity becomes available again when connections end" - and only then: a connection the server has reported and
+            \* not yet ended must still be among the ones it tracks (and counts against its limits)
+            \cup (IF e = "s" /\ \E p \in Peers : st[K("S", p)] = "conn" /\ ~\E i \in 1..Len(Cur.tracked) : Cur.tracked[i].peer = p
+                  THEN Flag("C17", "established-connection-no-longer-counted-against-the-limits") ELSE {})
+    /\ UNCHANGED <<st, closing, T, ka, connectT, cNonce, synSeen, synCount, curSynack, ackFwd, srvIssued, cliAcked, used, sAccepted, cAccepted, errFwd, saFwd,
+                   sentOn, relWait, mustDeliver, discAt, discCount, lng, nData, bytesIn, bytesOut, verified, cfg>>
 
 Skip ==
     /\ IsOneOf({"End", "FaultsEnd", "Net", "Ret", "Step"})
-    /\ UNCHANGED <<st, closing, T, ka, lastHeard, inbox, lastStep, maxGap, connectT, cNonce, synSeen, synCount, curSynack, ackFwd, srvIssued, cliAcked, used, sAccepted, cAccepted, errFwd,
-                   sentOn, relWait, mustDeliver, discAt, discCount, nData, bytesIn, bytesOut, verified, trackedPrev, trackedBefore, synThisStep, synLastStep, cfg, bad>>
+    /\ UNCHANGED <<st, closing, T, ka, lastHeard, inbox, lastStep, maxGap, connectT, cNonce, synSeen, synCount, curSynack, ackFwd, srvIssued, cliAcked, used, sAccepted, cAccepted, errFwd, saFwd,
+                   sentOn, relWait, mustDeliver, discAt, discCount, lng, nData, bytesIn, bytesOut, verified, trackedPrev, trackedBefore, synThisStep, synLastStep, cfg, bad>>
 
 Next == /\ (Reset \/ AppConnect \/ App \/ Wire \/ Fwd \/ Event \/ Limits \/ StepEnd \/ Skip)
         /\ seenWhy' = IF Rec[l].ev = "Reset" THEN {} ELSE seenWhy \cup {<<b[1], b[2]>> : b \in bad' \ bad}
